@@ -273,26 +273,32 @@ impl Slaac {
 
     /// Get the next time the SLAAC state must be polled for updates.
     pub(crate) fn poll_at(&self, now: Instant) -> Option<Instant> {
-        match self.phase {
-            Phase::Discovering | Phase::Start => Some(self.retry_rs_at),
-            Phase::Maintaining => {
-                let prefix_at = self.prefix.values().filter_map(|prefix_info| {
-                    if prefix_info.is_valid(now) {
-                        Some(prefix_info.valid_until)
-                    } else {
-                        None
-                    }
-                });
-                let routes_at = self.routes.iter().filter_map(|r| {
-                    if r.is_valid(now) {
-                        Some(r.valid_until)
-                    } else {
-                        None
-                    }
-                });
-                prefix_at.chain(routes_at).min()
+        // Next router solicitation, while there are solicitations left to send.
+        let rs_at = match self.phase {
+            Phase::Discovering | Phase::Start if self.num_solicitations > 0 => {
+                Some(self.retry_rs_at)
             }
             _ => None,
+        };
+        // Next expiry of a stored prefix or route, in whatever phase it was learnt.
+        let prefix_at = self.prefix.values().filter_map(|prefix_info| {
+            if prefix_info.is_valid(now) {
+                Some(prefix_info.valid_until)
+            } else {
+                None
+            }
+        });
+        let routes_at = self.routes.iter().filter_map(|r| {
+            if r.is_valid(now) {
+                Some(r.valid_until)
+            } else {
+                None
+            }
+        });
+        let expiry_at = prefix_at.chain(routes_at).min();
+        match (rs_at, expiry_at) {
+            (Some(a), Some(b)) => Some(a.min(b)),
+            (a, b) => a.or(b),
         }
     }
 }
